@@ -1,13 +1,15 @@
 #!/bin/sh
-# Build the whole Lean library and every model driver, offline, from files on disk.
-set -e
+# Build, offline and from files on disk only, the Lean modules and model drivers of every
+# property claimed in MANIFEST.json.  One lake invocation per property so that a module that
+# fails to build is reported by that property's own check instead of stopping the others.
 cd "$(dirname "$0")"
 /venv/bin/python -m vlib.extract_all
+props=$(/venv/bin/python -c "import json; print(' '.join(c['property_id'] for c in json.load(open('MANIFEST.json'))['checks']))")
 cd lean
-drivers=""
-for f in Drv/C*.lean; do
-  [ -f "$f" ] || continue
-  n=$(basename "$f" .lean | tr 'A-Z' 'a-z')
-  drivers="$drivers drv_$n"
+rc=0
+for p in $props; do
+  n=$(echo "$p" | tr 'A-Z' 'a-z')
+  echo "== building $p"
+  lake build "SqlObjVerif.Props.$p" "drv_$n" || { echo "build of $p failed (its check will report it)"; }
 done
-lake build SqlObjVerif $drivers
+exit 0
